@@ -200,8 +200,15 @@ class Ctx:
 
     def run_model(self, level, script, profile="debug", timeout=600):
         chunk = "\n".join(script) + "\n"
-        p = subprocess.run([DRIVER, level, profile], input=chunk.encode(), stdout=subprocess.PIPE,
-                           stderr=subprocess.PIPE, timeout=timeout, preexec_fn=_big_stack)
+        if os.environ.get("VERIF_DUMP_MODEL_SCRIPTS"):
+            open(os.path.join(ROOT, ".cache", "model_script_%s_%d.txt" % (level, len(script))), "w").write(chunk)
+        try:
+            p = subprocess.run([DRIVER, level, profile], input=chunk.encode(), stdout=subprocess.PIPE,
+                               stderr=subprocess.PIPE, timeout=timeout, preexec_fn=_big_stack)
+        except subprocess.TimeoutExpired:
+            # the correspondence of this batch is then unchecked: reported as such, not as a crash of the check
+            self.corr_failures.append({"what": "model driver timed out after %d s on level %s (%d ops): correspondence of this batch not checked" % (timeout, level, len(script))})
+            return ["modeltimeout"] * len(script)
         out = p.stdout.decode("utf-8", "replace").splitlines()
         if p.returncode != 0 or len(out) != len(script):
             self.corr_failures.append({"what": "model driver failed on level %s (rc=%d, %d/%d lines): %s" %
